@@ -1,7 +1,10 @@
 #!/usr/bin/env python3
 """C14 - PIL to time conversion picks the right year and instant and leaves TZ alone.
 
-Ops (see harness/pdc_harness.c): valid, lto, ltowin, totime, win, settz, limits.
+Ops (see harness/pdc_harness.c): valid, lto, ltowin, totime, win, settz, limits; round 5: every call prints
+` errno=<n>` (errno is 4242 before the call), ops on the file-local functions vlto, vltowin, ltz and on the public
+vbi_pty_validity_window (pty), errnos, wdtest.  The harness is a supervisor + worker pair: a hang or sanitizer abort
+of an op is one output line `crash <kind> <report>`, judged by the oracle as a violation of that op.
 The model's `Zone` parameter is concrete (days-from-civil) for UTC and fixed-offset zones; for
 every other TZ value libc's localtime_r/mktime answers are recorded from the harness in a pre-pass
 (op prefix `rec`) and handed to the model on the op line (`tab:`).
@@ -16,13 +19,18 @@ try:
 except ImportError:                                    # pragma: no cover
     zoneinfo = None
 
-WRAP = "-Wl,--wrap=strdup,--wrap=free,--wrap=setenv,--wrap=time,--wrap=localtime_r,--wrap=gmtime_r,--wrap=mktime"
+WRAP = "-Wl,--wrap=strdup,--wrap=free,--wrap=setenv,--wrap=time,--wrap=localtime_r,--wrap=gmtime_r,--wrap=mktime,--wrap=tzset,--wrap=unsetenv"
 TIME_MAX = 2 ** 63 - 1
 TIME_MIN = -2 ** 63
 MDAYS = [31, 29, 31, 30, 31, 30, 31, 31, 30, 31, 30, 31]
 NSPV = (15 << 15) | (15 << 11) | (31 << 6) | 63
 SERVICE = {(0 << 15) | (15 << 11) | (h << 6) | 63 for h in (28, 29, 30, 31)}
 EPOCH = datetime.datetime(1970, 1, 1)
+E0 = 4242                                              # errno before every call (harness)
+E_NO_TIME, E_INVALID_PIL = 0x7081900, 0x7081901        # enum in src/pdc.c, cross-checked by the `errnos` op
+import errno as _errno
+E_OVERFLOW, E_NOMEM = _errno.EOVERFLOW, _errno.ENOMEM
+ERRNAME = {0: "0", E0: "untouched", E_NO_TIME: "VBI_ERR_NO_TIME", E_INVALID_PIL: "VBI_ERR_INVALID_PIL", E_OVERFLOW: "EOVERFLOW", E_NOMEM: "ENOMEM"}
 
 def hx(s): return "".join("%02x" % b for b in s.encode("latin-1")) or "-"
 def unhx(h): return "" if h == "-" else bytes.fromhex(h).decode("latin-1")
@@ -78,9 +86,9 @@ INJ = ["strdup1", "setenv1", "setenv2", "time1", "localtime1", "gmtime1", "mktim
 class C14(verif.Spec):
     prop = "C14"
     comp = "pdc"
-    lean_modules = ["ZvbiModel.Props.C14"]
+    lean_modules = ["ZvbiModel.Props.C14", "ZvbiModel.Props.C14Errno"]
     harness = "pdc_harness"
-    harness_link_lib = True
+    harness_link_lib = False        # the harness includes src/pdc.c; its only outside reference is stubbed
     harness_extra = [WRAP]
     timeout_per_case = 5.0
     partial_note = ("libc is a parameter: theorems are proved for every `Zone` satisfying the stated mktime/localtime laws and, "
@@ -91,15 +99,20 @@ class C14(verif.Spec):
                    "libc zones follow `Zone.FollowsOffsets` (mktime with tm_isdst = -1: hit/overlap/gap rule) - validated on every run by "
                    "`mkrule` probes over the zones of RULE_ZONES present in /usr/share/zoneinfo, statistics in coverage.libc_mktime_rule",
                    "glibc semantics: localtime_r uses the zone of the last tzset(), mktime calls tzset(); setenv fails only with ENOMEM",
+                   "errno: libc is normalised by the interposers of the harness (a successful libc call leaves errno as it was; failing strdup/setenv "
+                   "ENOMEM, localtime_r/gmtime_r/mktime EOVERFLOW, mktime returning -1 counts as failing; time() fails without errno) - "
+                   "what libc leaves in errno after a successful call is not specified by POSIX and not part of the property; "
+                   "VBI_VERSION_MINOR is 2 (regenerated; the 0.2 API resets errno in the public functions)",
                    "the year of the reference time is >= 0 (is_leap_year works on the unsigned year) and tm_year + 1900 does not overflow int"]
-    trusted_base = ["translate/gen_pdc.py (month_days, HAVE_TIMEGM, shape of the three epoch guards)",
-                    "harness/pdc_harness.c (link-time interposition of libc) + lean/Driver/Pdc.lean",
+    trusted_base = ["translate/gen_pdc.py (month_days, HAVE_TIMEGM, shape of the three epoch guards, errno constants and the sequence of "
+                    "errno assignments per function)",
+                    "harness/pdc_harness.c (includes src/pdc.c, link-time interposition of libc, supervisor/worker watchdog) + lean/Driver/Pdc.lean",
                     "oracle: Python datetime / zoneinfo as the independent calendar"]
     open_statements = []
 
     # ---------------- generation ----------------
     def hexe(self):
-        exe, err = verif.build_harness(self.harness, link_lib=True, extra=self.harness_extra)
+        exe, err = verif.build_harness(self.harness, link_lib=self.harness_link_lib, extra=self.harness_extra)
         if exe is None:
             raise RuntimeError("harness build failed: " + err)
         return exe
@@ -238,7 +251,66 @@ class C14(verif.Spec):
                 c.append("win %d 86400 %s fix:1 0 -" % (pil(1, 2, hh, 9), hx("QQQ-0:00:01")))
                 c.append("totime %d 86400 %s fix:1 0 -" % (pil(1, 1, 0, 0), hx("QQQ-0:00:01")))
         cases.append(c)
+        # 6. errno / error kinds (round 5): the file-local functions and vbi_pty_validity_window, every failure path
+        cases.append(["errnos", "wdtest hang"])
+        cases.append(["wdtest abort", "errnos"])
+        big_e = [1, -1, 3600, -3600, 3601, -3599, 50400, -43200, 2 ** 31 - 1, -2 ** 31 + 1, -2 ** 31, 0]
+        edge = [TIME_MAX, TIME_MAX - 1, TIME_MAX - 3600, TIME_MAX - 3601, TIME_MAX - 2 ** 31, TIME_MAX - 2 ** 31 + 1, TIME_MIN, TIME_MIN + 1,
+                TIME_MIN + 3599, TIME_MIN + 3600, TIME_MIN + 2 ** 31 - 1, TIME_MIN + 2 ** 31, TIME_MIN + 2 ** 31 + 1]
+        c = []
+        for st in edge:                                     # guardIn: overflow near TIME_MIN / TIME_MAX, offsets of both signs
+            for east in big_e:
+                c.append("%s %d %d %d 0 -" % (rng.choice(["vlto", "lto", "vltowin"]), pil(rng.randrange(1, 13), 1, 12, 0), st, east))
+        cases.append(c)
+        c = []
+        for st in EXTREME[4:12] + [67767976233532799 - 86400 * 100, -67768040609740800 + 86400 * 100]:   # int-year limits: gmtime_r / tm_year +-1
+            for east in (0, 1, -1, 86400 * 40 if False else 2 ** 31 - 1, -2 ** 31 + 1):
+                for m in (1, 12, 6, 7):
+                    c.append("%s %d %d %d 0 -" % (rng.choice(["vlto", "vltowin"]), pil(m, 1, 0, 0), st, east))
+        cases.append(c)
+        VINJ = ["-", "-", "time1", "gmtime1", "mktime1", "strdup1", "setenv1", "setenv2", "mktime1,setenv2", "strdup1,setenv1", "gmtime2", "time2"]
+        for _ in range(N // 10):
+            c = []
+            amb = rng.choice([None, None, "AAA-1", "Europe/Berlin", "BBB+5", "UTC"])
+            if amb is not None: c.append("settz " + hx(amb))
+            for _ in range(8):
+                k = rng.random()
+                if k < 0.2: p = pil(2, 29, rng.choice([0, 3, 4, 23]), rng.choice([0, 59]))
+                else:
+                    m = rng.randrange(1, 13); p = pil(m, rng.randrange(1, MDAYS[m - 1] + 1), rng.choice([0, 3, 4, 12, 23]), rng.choice([0, 30, 59]))
+                st = rng.choice(refs) if rng.random() < 0.75 else rng.randrange(-3 * 10 ** 9, 5 * 10 ** 9)
+                if rng.random() < 0.25: st = -1
+                east = rng.choice(offs)
+                now = rng.choice(refs + [-1])
+                inj = rng.choice(VINJ)
+                if "setenv2" in inj and amb not in DISTINCT: inj = "mktime1"
+                op = rng.choice(["vlto", "vlto", "vltowin"])
+                if op == "vltowin": p &= pil(15, 31, 31, 63)
+                c.append("%s %d %d %d %d %s" % (op, p, st, east, now, inj))
+                if "setenv2" in inj: break
+            cases.append(c)
+        LINJ = ["-", "-", "-", "time1", "localtime1", "strdup1", "setenv1", "setenv2", "mktime1", "mktime1,setenv2", "time1,setenv2",
+                "localtime1,setenv2", "strdup1,setenv1"]
+        for _ in range(N // 10):
+            c = []
+            amb = rng.choice([None, None] + DISTINCT + ["UTC"])
+            if amb is not None: c.append("settz " + hx(amb))
+            for _ in range(8):
+                st = rng.choice(refs) if rng.random() < 0.7 else rng.randrange(-3 * 10 ** 9, 5 * 10 ** 9)
+                if rng.random() < 0.25: st = -1
+                if rng.random() < 0.08: st = rng.choice(EXTREME)
+                tz = rng.choice(tzs) if rng.random() < 0.85 else None
+                now = rng.choice(refs + [-1])
+                inj = rng.choice(LINJ)
+                if "setenv2" in inj and not (amb in DISTINCT and tz in DISTINCT + ["WWW+12"] and tz != amb): inj = "localtime1"
+                c.append("%s %d %s %s %d %s" % (rng.choice(["ltz", "pty"]), st, "NULL" if tz is None else hx(tz),
+                                                zone_token(amb if tz is None else tz), now, inj))
+                if "setenv2" in inj: break
+            cases.append(c)
         # 5. malformed op lines
+        c = ["vlto", "vlto 1 2 3 4", "vltowin x 0 0 0 -", "ltz 0 zz utc 0 -", "ltz 0 NULL nozone 0 -", "pty 0 NULL utc 0", "pty x NULL utc 0 -",
+             "errnos 1", "wdtest", "wdtest sleep", "ltz 0 NULL utc 0 bogus1", "vlto 100000 0 4294967296 0 -"]
+        cases.append(c)
         c = ["lto", "lto 1 2 3", "lto x 0 0 0 -", "lto 100000 0 4294967296 0 -", "lto 100000 0 0 0 bogus1", "lto 100000 0 0 0 setenv0",
              "totime 100000 0 NULL utc 0", "totime 100000 0 zz utc 0 -", "totime 100000 0 00 utc 0 -", "totime 100000 0 NULL nozone 0 -",
              "win 100000 0 NULL fix:x 0 -", "valid", "valid -1", "valid 4294967296", "settz", "settz zz", "settz 4100", "bogus 1 2",
@@ -250,6 +322,8 @@ class C14(verif.Spec):
         for c in cases:
             for l in c:
                 w = l.split()
+                if w[0] in ("vlto", "vltowin", "ltz", "pty"):
+                    mix["inner_" + w[0]] = mix.get("inner_" + w[0], 0) + 1
                 if w[0] not in ("lto", "ltowin", "totime", "win") or len(w) < 6: continue
                 mix["ops"] += 1
                 mix["with_injection"] += w[-1] != "-"
@@ -321,9 +395,23 @@ class C14(verif.Spec):
             return "output count %d != ops %d" % (len(out), len(case))
         amb = None
         judged_env = True
+        seen = self.__dict__.setdefault("errno_seen", {})
         for l, o in zip(case, out):
             w = l.split()
+            if o.startswith("crash"):
+                # the supervisor of the harness attributes a hang / sanitizer abort / assertion to the op
+                return "crash of the real code (%s) in op `%s`" % (o[6:300], " ".join(w[:1]))
+            if o == "skip":
+                return None                                   # after the cap of crashes (reported by an earlier case)
             if o.startswith("rej"):
+                continue
+            if w[0] == "errnos":
+                if o.split()[1:] != [str(E_INVALID_PIL), str(E_NO_TIME), str(E_OVERFLOW), str(E_NOMEM), "2"]:
+                    return "errnos: error constants / VBI_VERSION_MINOR differ from the ones the oracle uses: %s" % o
+                continue
+            if w[0] == "wdtest":
+                if o != "ok watchdog " + w[1]:
+                    return "watchdog: the harness supervisor did not catch `%s`: %s" % (l, o)
                 continue
             if w[0] == "limits":
                 if o.split()[1:6] != ["8", str(TIME_MIN), str(TIME_MAX), str(-2 ** 31), str(2 ** 31 - 1)]:
@@ -338,20 +426,32 @@ class C14(verif.Spec):
                 if o != "ok %d" % (1 if exp else 0):
                     return "valid: vbi_pil_is_valid_date(%s) = %s" % (w[1], o)
                 continue
-            if w[0] not in ("lto", "ltowin", "totime", "win"):
+            if w[0] not in ("lto", "ltowin", "totime", "win", "vlto", "vltowin", "ltz", "pty"):
                 continue
             f = o.split()
             tail = dict(x.split("=", 1) for x in f if "=" in x and not x.startswith("rec="))
             res = [x for x in f[1:] if "=" not in x]
-            p = int(w[1]); start = int(w[2])
-            if w[0] in ("lto", "ltowin"):
+            if w[0] in ("ltz", "pty"):
+                p = NSPV; start = int(w[1])
+                tzarg = None if w[2] == "NULL" else unhx(w[2]); now = int(w[4]); inj = w[5]; east = None
+                tz = amb if tzarg is None else tzarg
+            elif w[0] in ("lto", "ltowin", "vlto", "vltowin"):
+                p = int(w[1]); start = int(w[2])
                 east = int(w[3]); now = int(w[4]); inj = w[5]; tz = "UTC"; tzarg = "lto"
             else:
+                p = int(w[1]); start = int(w[2])
                 tzarg = None if w[3] == "NULL" else unhx(w[3]); now = int(w[5]); inj = w[6]; east = None
                 tz = amb if tzarg is None else tzarg
+            try:
+                en = int(tail.get("errno", "x"))
+            except ValueError:
+                return "errno: the harness did not print errno for `%s`: %s" % (w[0], o[:80])
+            seen.setdefault(w[0], {})
+            seen[w[0]][ERRNAME.get(en, "other")] = seen[w[0]].get(ERRNAME.get(en, "other"), 0) + 1
             # --- TZ untouched ---------------------------------------------------------------
             restore_exc = "setenv2" in inj.split(",") and amb is not None and tzarg is not None
-            failed = (res[0] == "-1") if w[0] in ("lto", "totime") else res[0].startswith("false")
+            failed = (res[0] == "-1") if w[0] in ("lto", "totime", "vlto") else (res[0] == "0") if w[0] == "ltz" else res[0].startswith("false")
+            if w[0] == "ltz" and tail.get("r") == "0": failed = True          # the harness's own restore_tz after localtime_tz
             if tail.get("heap") != "0":
                 return "heap: a strdup'ed TZ copy is still allocated after the call"
             if res[0] == "false-but-modified":
@@ -362,11 +462,108 @@ class C14(verif.Spec):
                 if not failed:
                     return "tz: TZ not restored but the call reported success"
                 amb = None if tail.get("tz") == "unset" else unhx(tail.get("tz"))
+            # --- errno (round 5) ------------------------------------------------------------
+            what = self.judge_errno(w[0], p, start, east, tz, amb, tzarg, now, inj, res, en, failed)
+            if what:
+                return what
             # --- value ----------------------------------------------------------------------
-            what = self.judge_value(w[0], p, start, east, tz, now, inj, res)
+            if w[0] == "ltz":
+                what = self.judge_ltz(start, tz, now, inj, res)
+            else:
+                vop = {"vlto": "lto", "vltowin": "ltowin", "pty": "win"}.get(w[0], w[0])
+                what = self.judge_value(vop, p, start, east, tz, now, inj, res)
             if what:
                 return what
         return None
+
+    def judge_ltz(self, start, tz, now, inj, res):
+        """localtime_tz: TRUE -> the broken-down time is the reference time viewed in the zone"""
+        if res[0] != "1":
+            if inj == "-" and not (start == -1 and now == -1) and tz is not None and (tz in FIXED or tz in NAMED):
+                t = now if start == -1 else start
+                if self.local_fields(t, tz) is not None:
+                    return "localtime_tz: failed without a reason (start %d zone %s)" % (start, tz)
+            return None
+        t = now if start == -1 else start
+        if start == -1 and "time1" in inj.split(","):
+            return "localtime_tz: TRUE although time() failed"
+        if tz is None or (tz not in FIXED and tz not in NAMED):
+            return None
+        lf = self.local_fields(t, tz)
+        if lf is None:
+            return None
+        got = (int(res[1]) + 1900, int(res[2]) + 1, int(res[3]), int(res[4]), int(res[5]), int(res[6]))
+        if got != lf:
+            return "localtime_tz: %d in zone %s is %s, got %s" % (t, tz, lf, got)
+        return None
+
+    def judge_errno(self, op, p, start, east, tz, amb, tzarg, now, inj, res, en, failed):
+        """errno after the call.  Public 0.2 API: 0 (untouched on the early indefinite-window returns); file-local
+        functions: the error kind, judged from the inputs independently of the model."""
+        name = ERRNAME.get(en, str(en))
+        m, d, h, mi = fields(p)
+        ij = inj.split(",")
+        if op in ("lto", "totime"):
+            return None if en == 0 else "errno: %s left errno = %s (0.2 API: 0 after every call)" % (op, name)
+        if op in ("ltowin", "win"):
+            indef = (1 <= m <= 12 and not (1 <= d <= MDAYS[m - 1])) or m in (13, 14) or p in SERVICE
+            exp = E0 if indef else 0
+            return None if en == exp else "errno: %s left errno = %s, expected %s (PIL %d)" % (op, name, ERRNAME[exp], p)
+        if op == "pty":
+            if en == 0: return None
+            if en == E_NOMEM and failed and "setenv2" in ij and "mktime1" in ij: return None     # restore_tz failed after mktime failed
+            return "errno: vbi_pty_validity_window left errno = %s" % name
+        s_eff = start
+        if start == -1:
+            s_eff = None if ("time1" in ij or now == -1) else now
+        if op == "ltz":
+            if not failed or res[0] == "1":
+                return None if en == 0 else "errno: localtime_tz returned TRUE with errno = %s" % name
+            if en in (0, E0):
+                return "errno: localtime_tz failed with errno = %s" % name
+            allowed = set()
+            if tzarg is not None and ("strdup1" in ij or "setenv1" in ij or "setenv2" in ij): allowed.add(E_NOMEM)
+            if s_eff is None: allowed.add(E_NO_TIME)
+            elif "localtime1" in ij or abs(s_eff) > 6 * 10 ** 16: allowed.add(E_OVERFLOW)
+            return None if en in allowed else "error_kind: localtime_tz failed with errno = %s, possible here: %s (start %d now %d inj %s)" % (
+                name, sorted(ERRNAME[x] for x in allowed), start, now, inj)
+        # vlto / vltowin
+        if op == "vltowin":
+            p &= pil(15, 31, 0, 0); h = mi = 0
+        lost = failed if op == "vlto" else (failed or res == [str(TIME_MIN), str(TIME_MAX)])
+        if op == "vlto" and failed and en == 0 and east % 60 == 1:
+            return None                                       # the converted value is exactly (time_t) -1 (needs seconds_east = 1 mod 60)
+        if not lost:
+            return None if en == 0 else "errno: %s succeeded with errno = %s" % (op, name)
+        if en in (0, E0):
+            if op == "vltowin" and en == 0 and failed:
+                return None                                   # 00:00 converted to exactly (time_t) -1 (window_minus_one_refused)
+            return "errno: %s failed with errno = %s" % (op, name)
+        if s_eff is None:
+            exp = {E_NO_TIME}
+        elif not (TIME_MIN <= s_eff + east <= TIME_MAX):
+            exp = {E_OVERFLOW}
+        elif "gmtime1" in ij:
+            exp = {E_OVERFLOW}
+        else:
+            dt = civil(s_eff + east)
+            if dt is None:
+                exp = {E_OVERFLOW, E_INVALID_PIL} if (m, d) == (2, 29) else {E_OVERFLOW}
+                if ij != ["-"]: exp.add(E_NOMEM)
+            else:
+                y = self.infer_year(dt.year, dt.month, m)
+                if (m, d) == (2, 29) and not is_leap(y):
+                    exp = {E_INVALID_PIL}
+                else:
+                    exp = set()
+                    if "strdup1" in ij and amb is not None: exp.add(E_NOMEM)
+                    if "setenv1" in ij or "setenv2" in ij: exp.add(E_NOMEM)
+                    if "mktime1" in ij: exp.add(E_OVERFLOW)
+                    if not exp: exp = {E_OVERFLOW}          # an unrepresentable result is the only reason left
+        if op == "vltowin" and (en == E_INVALID_PIL) != (res == [str(TIME_MIN), str(TIME_MAX)]):
+            return "errno: valid_pil_lto_validity_window: indefinite window <-> VBI_ERR_INVALID_PIL violated (errno %s, %s)" % (name, res)
+        return None if en in exp else "error_kind: %s failed with errno = %s, expected %s (PIL %d start %s east %d inj %s)" % (
+            op, name, sorted(ERRNAME[x] for x in exp), p, s_eff, east, inj)
 
     def judge_value(self, op, p, start, east, tz, now, inj, res):
         m, d, h, mi = fields(p)
@@ -535,6 +732,7 @@ class C14(verif.Spec):
     def extra_checks(self, ctx):
         """validate the libc hypothesis `Zone.FollowsOffsets` (mktime with tm_isdst = -1: hit / overlap / gap rule, localtime
         law) against this libc for every listed zone present in /usr/share/zoneinfo; harness-only probes"""
+        self.extra_coverage = dict(getattr(self, "extra_coverage", {}), errno_observed=getattr(self, "errno_seen", {}))
         if ctx.get("replay"):
             return []
         zdir = "/usr/share/zoneinfo"
